@@ -365,7 +365,9 @@ def _is_safe_output_type_change(
     elif isinstance(old_type, ListType):
         return (
             isinstance(new_type, ListType)
+            # Item types becoming nullable is not safe for output types.
             and _is_safe_input_type_change(old_type.type, new_type.type)
+            and _is_safe_output_type_change(old_type.type, new_type.type)
         ) or (
             isinstance(new_type, NonNullType)
             and _is_safe_output_type_change(old_type, new_type.type)
